@@ -14,6 +14,10 @@ CLAIMED = {
    text="Kernel-checked theorems over an integer model of ov_read's conversion defined on IEEE bit patterns: round-to-nearest-even with error <= 1/2 and monotone, exact in-range behaviour, saturation of huge positive samples to the most positive value (F5 regression), output always within the word's range, bytes decode back to the clipped sample for all 8 formats, interleaving offsets, frame counting (whole frames, <= buffer, maximal, errors for short buffers / non-positive word). Tied to lib/vorbisfile.c + lib/os.h by running ov_read_filter on real streams with injected bit patterns and comparing bytes/return/advance with the model; an independent exact-rational oracle states the property directly.",
    note="Trusted: Lean kernel; the model's reading of cvtsd2si (round-to-nearest-even, MXCSR default) and little-endian host; extract.py; harness; gcc/ASan. NaN inputs: only model/implementation agreement. Channel counts beyond those generated (1..8, 255 in thorough) rest on the theorem + model tie.",
    tech="Lean 4 proof (integer arithmetic on float bit patterns) + differential correspondence vs ov_read_filter"),
+ "C14": dict(cat="proof", ref="§8 C14",
+   text="Kernel-checked theorems over a faithful model of vorbis_bitrate_addblock's hard-limit logic (min/max loops, truncate, pad, reservoir update) for every block sequence, every 15-blob size vector and every floater choice: reservoir stays in [0, reservoir_bits]; over every contiguous run emitted bits exceed the maximum budgets by at most the reservoir, and fall short of the minimum budgets by at most the reservoir; plus the witness that the side condition (both limits => reservoir >= 7 bits) is necessary. Tied to lib/bitrate.c by replaying every block of direct-mode (synthetic blob vectors through the real vorbis_bitrate_addblock) and real managed encodes through the model: choice, packet bytes and reservoir must agree exactly.",
+   note="Budgets are the manager's own quantised per-block targets; drift against the configured rate (F9) and reservoirs < 7 bits with both limits (F12) are genuine, recorded known findings. The average floater (double arithmetic) is an oracle parameter (only rint(avgfloat) enters). Trusted: Lean kernel, harness reading private structs through codec_internal.h.",
+   tech="Lean 4 proof (invariant by induction over block sequences) + differential replay of the real rate manager"),
 }
 
 NA_REASON = "not yet built in this round: model/theorems for this property are not in the tree yet (see DESIGN.md §8 for the plan)"
